@@ -19,6 +19,7 @@ pub const LOOKALIKE_ENVS: &[S] = &[
     "GETOPT_COMPATIBLE", "COLORTERM", "TERM_PROGRAM", "CI", "DEBUG", "RUST_LOG", "SHELL", "PWD",
     "TMPDIR", "EDITOR", "PAGER", "MANWIDTH", "XDG_CONFIG_HOME", "HOSTNAME", "LOGNAME", "TZ", "IFS",
     "BPAF_DEBUG", "BPAF_COMPLETE", "CARGO", "CARGO_PKG_NAME", "CARGO_PKG_VERSION", "_",
+    "COMP_POINT", "COMP_CWORD", "COMP_TYPE", "BASH_VERSION", "ZSH_VERSION", "SHLVL", "OLDPWD",
 ];
 /// every variable name any generator may use or touch, with its upper- and lower-case forms
 pub fn all_env_names() -> Vec<&'static str> {
@@ -228,7 +229,13 @@ impl<'a> Gen<'a> {
         match self.r.below(8) {
             0..=2 => Ty::Int,
             3..=5 => Ty::Str,
-            6 => Ty::Os,
+            6 => {
+                if self.r.chance(1, 3) {
+                    Ty::Path
+                } else {
+                    Ty::Os
+                }
+            }
             _ => {
                 if self.sw.callbacks {
                     Ty::Num
@@ -660,7 +667,7 @@ pub fn value_for(r: &mut Rng, ty: Ty, hostile: bool) -> Tok {
     match ty {
         Ty::Int | Ty::Num => t(*r.pick(ints)),
         Ty::Str => t(*r.pick(strs)),
-        Ty::Os => {
+        Ty::Os | Ty::Path => {
             if r.chance(1, 3) {
                 vec![b'o', 0xff, b's']
             } else {
